@@ -149,8 +149,10 @@ def check_genbank(spec, ctx):
                             aas[0] = "M"
                         ctx.label("translation_checked")
                         ctx.eq("translation[%s]" % flavor, f.qualifiers.get("translation", [None])[0], "".join(aas))
-                    if not translations:
+                    if not translations and "translation" not in (t.get("qualifiers") or {}):
                         ctx.true("no_translation_unless_requested", "translation" not in f.qualifiers)
+                    if "translation" in (t.get("qualifiers") or {}):
+                        ctx.label("stale_translation_qualifier")
             if translations:
                 continue
             # (b) BioCantor's parsers, (c) mode agreement
@@ -219,10 +221,15 @@ def strat_genbank(draw, tier="quick"):
             if coding:
                 t["transcript_type"] = "protein_coding"
                 t["protein_id"] = draw(st.one_of(st.none(), st.just("prot%d_%d" % (i, j))))
+                if draw(st.integers(0, 3)) == 0:
+                    # a /translation carried over from an earlier parse of another sequence version
+                    t["qualifiers"] = dict(t.get("qualifiers") or {}, translation=["MSTALEPEPTIDE"])
+                    t["_keep_q"] = True
             else:
                 t["transcript_type"] = draw(st.sampled_from(["ncRNA", "tRNA", "rRNA", "misc_RNA", "tmRNA", "lncRNA"]))
             t["is_primary_tx"] = None
-            t["qualifiers"] = draw(S.simple_qualifiers(1))
+            if not t.pop("_keep_q", False):
+                t["qualifiers"] = draw(S.simple_qualifiers(1))
             txs.append(t)
         if ntx == 2 and json.dumps([txs[0]["exons"], txs[0].get("cds")]) == json.dumps([txs[1]["exons"], txs[1].get("cds")]):
             txs.pop()
@@ -253,7 +260,7 @@ PROP = Prop(
     pid="C12",
     legs=[
         Leg("genbank", check_genbank, strategy=strat_genbank, n_quick=150, n_thorough=1500, shards_quick=8,
-            must_hit=["minus&multi_exon", "offset!=0", "noncoding", "two_genes_touching", "translation_checked"],
+            must_hit=["minus&multi_exon", "offset!=0", "noncoding", "two_genes_touching", "translation_checked", "stale_translation_qualifier"],
             rule="1..4 single-strand genes at increasing positions (adjacent genes possible), 1..2 isoforms, coding (offset 0/1/2, one reading frame) or non-coding (ncRNA/tRNA/rRNA/misc_RNA/tmRNA/lncRNA), unique symbols and locus tags, optional feature collection; x flavour {prokaryotic, eukaryotic} x update_translations x parser mode {sorted, locus-tag, hybrid}"),
     ],
     rule="Oracle: Bio.SeqIO (independent reader) for record types/blocks/strand/qualifiers, Bio codon table for /translation; source spec for the "
